@@ -208,7 +208,9 @@ pub fn run(tier: Tier, reg: &[VT]) -> Report {
 	let acc = par(reg, |vt, acc| {
 		heartbeat(vt.name);
 		let shape = (vt.shape)();
-		for v in domain::values(&shape, &b) {
+		let mut bb = b.clone();
+		bb.big_fills = b.big_fills || vt.core;
+		for v in domain::values(&shape, &bb) {
 			for suffix in SUFFIXES {
 				acc.evaluations += 1;
 				acc.transitions += 2;
